@@ -238,14 +238,45 @@ def run(prog, tier) -> Result:
     if doc_rows < 100:
         raise AnalysisError(f"only {doc_rows} documentation rows found (≈110 confirmed on the pinned tree)")
 
-    # ---- R20.4 the generator prints the stored scale
+    # ---- R20.4 the documentation generator, evaluated over the evaluated catalogue: every unit of a type with a
+    # reference unit is printed exactly once, in that type's table, with its computed equivalent
     gm = prog.modules.get("utils.make_predef_units_doc")
     if gm is not None:
-        src = gm.source
-        ok = "unit._equiv" in src and "print_unit_line(unit, equiv)" in src.replace("\n", " ")
-        uses = [n for n in ast.walk(gm.tree) if isinstance(n, ast.Assign) and src_of(n.value) == "unit._equiv"]
-        res.ob("R20.4", "utils/make_predef_units_doc.py", "equivalent column = stored scale", bool(uses), "",
-               sig="generator does not print the stored scale", nontrivial=False)
+        from ..catalogue import DocScript
+        ds = DocScript(cat, gm)
+        gen = parse_doc_tables(ds.text())
+        gen_rows = 0
+        for tname, t in cat.types.items():
+            sec = gen.get(tname)
+            if t.ref_unit is None or t.ref_unit.scale is None:
+                continue
+            others = [u for u in t.units if u is not t.ref_unit]
+            if sec is None:
+                res.ob("R20.4", f"generated section {tname}", "printed", False, "the generator prints no section for the type",
+                       sig="generator omits a type")
+                continue
+            printed = {}
+            for tb in sec["tables"]:
+                if tb["header"][:1] != ["Symbol"]:
+                    continue
+                for row in tb["rows"]:
+                    gen_rows += 1
+                    sym, _name, _def, equiv = (row + ["", "", "", ""])[:4]
+                    printed.setdefault(sym, []).append(equiv)
+            for u in others:
+                got = printed.get(u.symbol, [])
+                val = parse_decimal_or_fraction(got[0]) if len(got) == 1 else None
+                want = u.scale / t.ref_unit.scale if u.scale is not None else None
+                res.ob("R20.4", f"generated row {tname}/{u.symbol}", "equivalent column = computed scale",
+                       len(got) == 1 and val is not None and val == want,
+                       f"the generator prints {got!r} for '{u.symbol}', computed equivalent {want}",
+                       sig="generator does not print the computed equivalent", nontrivial=False)
+            extra = sorted(set(printed) - {u.symbol for u in others})
+            res.ob("R20.4", f"generated section {tname}", "no other rows", not extra, f"rows for {extra}",
+                   sig="generator prints rows for undeclared units", nontrivial=False)
+        res.extra["generated_rows"] = gen_rows
+        if gen_rows < 80:
+            raise AnalysisError(f"the evaluated generator prints only {gen_rows} unit rows (≈100 expected)")
 
     res.require("R20.1", 113)
     res.require("R20.1t", 14)
